@@ -3,7 +3,7 @@ package scriptref
 import "testing"
 
 func TestAnchor(t *testing.T) {
-	vs, err := LoadVectors("/repo/bscript/interpreter/data/script_tests.json")
+	vs, err := LoadVectors("../vectors/script_tests.json")
 	if err != nil {
 		t.Fatal(err)
 	}
